@@ -1523,6 +1523,8 @@ def _obs_task(task):
     try:
         return getattr(funcs, kind)(*args)
     except Exception as e:
+        if type(e).__name__ == "Unobservable":
+            return {"_unobservable": str(e)}
         return {"_driver_error": f"{type(e).__name__}: {e}", "tb": traceback.format_exc(), "task": [kind, str(args)[:300]]}
 
 
@@ -1827,6 +1829,16 @@ def node_queue_suite(ctx):
     if not q:
         rng = random.Random(ctx.seed + 5)
         inputs += rng.sample(list(nodequeue.all_inputs(4, 1, [1, 2, 4])), 6000)
+    # can the queue's iterations be observed on this tree at all?  (The driver listens to debug records of job_queue.py and
+    # wraps private methods; after a refactoring that removes them nothing is concluded from this suite -- no alarm, no hang.)
+    probe = run_obs([("explore_nodequeue", (i,)) for i in inputs[:40:13]])
+    if any(isinstance(r, dict) and "_unobservable" in r for r in probe):
+        why = next(r["_unobservable"] for r in probe if isinstance(r, dict) and "_unobservable" in r)
+        ctx.notes.append("node-queue suite skipped: iterations of JobQueue._check_completions are not observable on this tree (" + why + ")")
+        ctx.extra["node_queue"] = {"skipped": why}
+        for n, c in models:
+            ctx.model(n, "NodeQueue", c, 4, None, 3000)
+        return
     with ThreadPoolExecutor(max_workers=len(models)) as ex:      # TLC explores while the real queue is being driven
         futs = [ex.submit(ctx.model, n, "NodeQueue", c, 4, None, 3000) for n, c in models]
         lists = run_obs([("explore_nodequeue", (i,)) for i in inputs])
